@@ -425,4 +425,4 @@ def run(ck):
     ck.oblige("correspondence fileio/chunked: model session (chunks, EVLRs, close) == real LasWriter session bytes", "correspondence", bad is None, bad or "")
     ck.failures.sort(key=lambda f: (f["input"].get("n", 0), len(str(f["input"]))))
     if ck.tier == "thorough":
-        ck.leanchecker(["LasModel.Props.C04"])
+        ck.leanchecker(["LasModel.Props.C04", "LasModel.Props.C04Fmt"])
